@@ -95,7 +95,7 @@ impl Prop for C09 {
         }
     }
     fn required_probes(&self, _tier: Tier) -> Vec<&'static str> {
-        vec!["flip_prev", "flip_merkle", "flip_tx", "swap_other_height", "swap_foreign", "bad_genesis", "consistent_from_genesis", "consistent_start_gt_0", "odd_level_tree", "flip_at_first_processed_height", "flip_in_auxpow_block", "narrow_range_of_long_chain", "flip_genesis_header_field", "repeated_txid_as_merkle_siblings"]
+        vec!["flip_prev", "flip_merkle", "flip_tx", "swap_other_height", "swap_foreign", "bad_genesis", "consistent_from_genesis", "consistent_start_gt_0", "odd_level_tree", "flip_at_first_processed_height", "flip_in_auxpow_block", "narrow_range_of_long_chain", "flip_genesis_header_field", "repeated_txid_as_merkle_siblings", "stored_header_differs_from_indexed_outside_prev_and_merkle"]
     }
     fn explore(&self, item: u64, rng: &mut Rng, tier: Tier, h: &mut Harness) -> Result<(), String> {
         let n_cons = if tier == Tier::Quick { 200 } else { 4000 };
@@ -141,6 +141,22 @@ impl Prop for C09 {
             }
             scn.layouts = vec![random_layout(nb, 3, true, rng)];
             scn.index = index_opts(rng);
+            // a stored header that differs from the indexed one outside the prev and merkle fields (nonce,
+            // time, bits or version): the index key of height k is the hash of the *indexed* header, block
+            // k+1 links to that hash, block k's own merkle root and prev link hold — consistent by the statement
+            if nb >= 3 && rng.chance(1, 6) {
+                let k = rng.usize(1, nb - 1);
+                let built = crate::ser::build_all(&scn);
+                let mut hdr = built.active[k].bytes[..80].to_vec();
+                let at = *rng.pick(&[0usize, 1, 2, 3, 68, 69, 70, 71, 72, 73, 74, 75, 76, 77, 78, 79]);
+                hdr[at] ^= 1 << rng.below(8);
+                let indexed = sha256d_(&hdr);
+                scn.index.key_overrides = vec![(k as u64, Bytes(indexed.to_vec()))];
+                if k + 1 < nb {
+                    scn.chain[k + 1].prev = Some(Bytes(indexed.to_vec()));
+                }
+                h.stats.probe("stored_header_differs_from_indexed_outside_prev_and_merkle");
+            }
             let cb = *rng.pick(&["csvdump", "csvdump", "unspentcsvdump", "balances", "simplestats", "opreturn"]);
             let mut r = RunSpec::new(cb);
             r.verify = true;
